@@ -24,7 +24,7 @@ BOUND = {
     "quick": "16 functions, all configurations with <=2 deviating coordinates (shape, dtype, "
     "hyperparameters, constraint); tiny shapes x all assignments over {-2,-0.5,0,0.5,3}; all "
     "unsupported/unknown arguments",
-    "thorough": "<=3 deviating coordinates; same exhaustive value part",
+    "thorough": "<=4 deviating coordinates; same exhaustive value part",
 }
 EXHAUSTIVE = {"quick": True, "thorough": True}
 ASSUMPTIONS = [
